@@ -2269,10 +2269,11 @@ package ucfg
 //@ sweep
 //@ norte extern@(Value).Elem
 
-//@ func tryTConfig
+//@ func tryTConfig :: value -> r, ok
 //@ props C07
 //@ sweep
 //@ norte extern@(Value).Elem
+//@ ensures [addressable !unproved] ok ==> rvCanAddr(r)
 
 // normalizeArray: one configuration list entry per element of the Go array or slice
 //@ func normalizeArray :: opts, tagOpts, ctx, v -> r, err
@@ -2300,7 +2301,7 @@ package ucfg
 //@ props C07
 //@ sweep
 //@ rvwrites nothing
-//@ ensures [settable] rvCanSet(r) && rvKind(r) == rvKind(v) && rvType(r) == rvType(v) && fresh(rvRootOf(r))
+//@ ensures [settable] rvCanSet(r) && rvCanAddr(r) && rvKind(r) == rvKind(v) && rvType(r) == rvType(v) && fresh(rvRootOf(r))
 
 //@ func reifyDoArray$1
 //@ props C08
